@@ -1,7 +1,7 @@
 """Tool-level properties decided by replaying TLC-enumerated scenarios (MC_Out / Outcome.tla) into the real
 binary: C05 (all-or-nothing), C08 (quilt metadata), C13 (reject files); C06/C09/C10/C14/C16 build on the
 same machinery (see their functions)."""
-import json, os, random, re
+import json, os, random, re, subprocess
 from multiprocessing import Pool
 from vlib import *
 import ws, scen
@@ -311,4 +311,119 @@ def check(prop, tier):
         return check_c10(prop, tier)
     if prop == 'C14':
         return check_c14(prop, tier)
+    if prop == 'C15':
+        return check_c15(prop, tier)
     return check_scenarios(prop, tier)
+
+
+# ---------------------------------------------------------------------------------------------
+# C15: files are replaced, never edited in place; hard-linked copies stay intact
+def twin_one(job):
+    sc, cfg, out, threads, loader, traced = job
+    base = ws.mkws('twin')
+    w, twin = os.path.join(base, 'ws'), os.path.join(base, 'twin')
+    os.makedirs(w)
+    try:
+        scen.materialise(w, sc['tree0'], sc['series'], [('-R' if pt.get('rev') else '') for pt in sc['series']])
+        ws.write(w, 'z', b'bystander\n')
+        ws.write(w, 'zz/bystander', b'bystander\n', 0o600)
+        subprocess.run(['cp', '-al', w, twin], check=True)
+        named = set()
+        for pt in sc['series']:
+            for fp in pt['fps']:
+                named |= {fp['old'], fp['new']} - {'NULL'}
+        before = ws.snapshot(w, meta=True)
+        twin_before = ws.snapshot(twin, skip=(), meta=True)
+        probs = []
+        args = scen.flags(cfg, threads, ('-q',) + (('--mmap',) if loader else ()))
+        if traced:
+            rc, se, events = ws.strace_push(w, args)
+            # replay of the event trace into a model of the directory: which names exist
+            exists = {p for p in before if not p.endswith('/')}
+            for ev in events:
+                rel = ws.under(w, ev['path']) if ev['path'] else None
+                if rel is None or not ev['write'] or ev['ret'] is None or ev['ret'] < 0:
+                    continue
+                is_tree = not rel.startswith('.pc') and not rel.endswith('.rej')
+                if ev['call'] in ('open', 'openat', 'creat'):
+                    if is_tree and rel in exists and (ev.get('trunc') or True):
+                        probs.append(('in-place', 'existing working-tree file %s opened for writing without being unlinked first: %s' % (rel, ev['args'][:100])))
+                    if is_tree and rel not in named and not os.path.isdir(os.path.join(w, rel)):
+                        probs.append(('unnamed-touched', 'file %s that no patch names was opened for writing' % rel))
+                    exists.add(rel)
+                elif ev['call'] in ('unlink', 'unlinkat'):
+                    if is_tree and rel not in named:
+                        probs.append(('unnamed-touched', 'file %s that no patch names was removed' % rel))
+                    exists.discard(rel)
+                elif ev['call'] in ('rename', 'renameat', 'renameat2', 'chmod', 'fchmodat', 'truncate', 'link', 'linkat') and is_tree and rel not in named:
+                    probs.append(('unnamed-touched', '%s on %s that no patch names' % (ev['call'], rel)))
+        else:
+            rc, so, se = ws.push(w, args)
+        if ws.crashed(rc):
+            return [('crash', 'exit status %s: %s' % (rc, se[-200:]))]
+        after = ws.snapshot(w, meta=True)
+        twin_after = ws.snapshot(twin, skip=(), meta=True)
+        if twin_after != twin_before:
+            ch = sorted(p for p in set(twin_after) | set(twin_before) if twin_after.get(p) != twin_before.get(p))
+            probs.append(('twin-changed', 'hard-linked copies changed (content, mode, inode or mtime): %s' % ch))
+        for p, v in after.items():
+            if p.endswith('/') or p.startswith('.pc') or p.endswith('.rej'):
+                continue
+            b = before.get(p)
+            if b is None:
+                continue
+            changed = (v[0], v[1]) != (b[0], b[1])
+            if changed and v[2] == b[2]:
+                probs.append(('same-inode', '%s changed but is still the same inode' % p))
+            if p not in named and (v[2] != b[2] or v[3] != b[3]):
+                probs.append(('unnamed-touched', 'file %s that no patch names got a new inode or mtime' % p))
+        for p in before:
+            if not p.endswith('/') and p not in after and p not in named and not p.startswith('.pc'):
+                probs.append(('unnamed-touched', 'file %s that no patch names disappeared' % p))
+        return probs
+    finally:
+        ws.rmws(base)
+
+
+def check_c15(prop, tier):
+    res = Result(prop, tier)
+    work = scratch(prop)
+    rnd = random.Random(seed())
+    try:
+        out, st = enumerate_scenarios(res, 'twin-scenarios', 'TreesSmall' if tier == 'quick' else 'TreesAll', 'TRUE', 2, 'Cfgs_push', work, 'TRUE')
+        lines = [l for l in open(out, errors='replace') if l.startswith('"{')]
+        os.unlink(out)
+        strata = {}
+        for line in lines:
+            m = re.search(r'\\"k\\":(\d+).{0,4000}?\\"exit\\":(\d)', line)
+            strata.setdefault((min(int(m.group(1)), 2), m.group(2)) if m else '?', []).append(line)
+        n = 2400 if tier == 'quick' else 30000
+        pick = []
+        for k, ls in sorted(strata.items()):
+            pick += rnd.sample(ls, min(len(ls), n // len(strata)))
+        jobs = []
+        for li, line in enumerate(pick):
+            sc = json.loads(json.loads(line))
+            if sc['outs'][0]['out']['adversarial']:
+                continue
+            o = sc['outs'][li % len(sc['outs'])]
+            jobs.append((sc, o['cfg'], o['out'], 1 + li % 3, li % 2 == 1, li % 10 == 0))
+        with Pool(12) as pool:
+            outs = pool.map(twin_one, jobs, chunksize=8)
+        for (sc, cfg, o, threads, loader, traced), probs in zip(jobs, outs):
+            for cat, msg in probs:
+                res.violation(cat, msg + ' (threads %d%s)' % (threads, ', --mmap' if loader else ''),
+                              {'tree0': sc['tree0'], 'series': sc['series'], 'cfg': cfg, 'threads': threads, 'mmap': loader})
+        res.cov['parts']['twin-scenarios'].update({'runs': len(jobs), 'traced_with_strace': sum(1 for j in jobs if j[5]), 'with_mmap': sum(1 for j in jobs if j[4]),
+                                                   'failing_series': sum(1 for j in jobs if j[2]['exit'] == 1)})
+        res.cov['traces_validated_against_impl'] += len(jobs)
+        res.cov['evaluations'] += len(jobs)
+        res.cov['distinct_nontrivial'] += len(jobs)
+        res.sample({'tree0': jobs[0][0]['tree0'], 'series': jobs[0][0]['series'], 'cfg': jobs[0][1]})
+        ws.cleanup_all()
+    finally:
+        shutil.rmtree(work, ignore_errors=True)
+    res.cov['rule'] = ('stratified sample of TLC-enumerated scenarios (modify, delete, rename, mode change, create over empty, rollback after failure, -R); every workspace gets a `cp -al` twin and two bystander files; '
+                       'after the push (1-3 threads, both loaders) the twin must be bit-, mode-, inode- and mtime-identical, every changed file must be a fresh inode, and files no patch names keep inode and mtime; '
+                       'every 10th run is traced with strace and the open/unlink events are replayed into a model of the directory: an existing working-tree name may not be opened for writing')
+    return res
